@@ -318,9 +318,9 @@ theorem jetEventLines_no_nl {partons : Bool} {e : JEvent} (he : JEventOk partons
   · have := partLine_alphabet (he.rows r hr).2.1 _ hm
     revert this; decide
 
-/-- C01 classification, JETSCAPE: the text rendered for a specification of the grammar is observed as that specification -/
-theorem jet_classification (F : JetSpec) (hg : grammarJet F = true) :
-    obsJet (Proto.fileOfText (jetText F)) F = true := by
+/-- the lines of a rendered JETSCAPE text -/
+theorem fileOfText_jetText (F : JetSpec) (hg : grammarJet F = true) :
+    Proto.fileOfText (jetText F) = { lines := (jetLinesText F).map analyse, trailingNL := F.trailingNL } := by
   obtain ⟨hk, n1, s1, f1, s2, f2, ⟨sep, hsep, htr⟩, hev⟩ := grammarJet_unpack hg
   have hne : jetLinesText F ≠ [] := by simp [jetLinesText]
   have hnl : ∀ l ∈ jetLinesText F, '\n' ∉ l.toList := by
@@ -344,13 +344,21 @@ theorem jet_classification (F : JetSpec) (hg : grammarJet F = true) :
     have hg : (jetLinesText F).getLast hne = F.trailer := by
       simp only [this, List.getLast_concat]
     rw [hg]; exact htne
-  have hjh : isJHead F.partons (analyse F.h1) = true := by
-    have : hasKey F.partons (analyse F.h1) = false := by
-      revert hk; cases F.partons <;> simp [hasKey, jetKey, analyse]
-    simp [isJHead, this]
   unfold jetText
-  rw [fileOfText_textOfLines _ _ hne hnl hlast]
+  exact fileOfText_textOfLines _ _ hne hnl hlast
+
+theorem jet_head_obs (F : JetSpec) (hg : grammarJet F = true) : isJHead F.partons (analyse F.h1) = true := by
+  have hk := (grammarJet_unpack hg).1
+  have : hasKey F.partons (analyse F.h1) = false := by
+    revert hk; cases F.partons <;> simp [hasKey, jetKey, analyse]
+  simp [isJHead, this]
+
+/-- C01 classification, JETSCAPE: the text rendered for a specification of the grammar is observed as that specification -/
+theorem jet_classification (F : JetSpec) (hg : grammarJet F = true) :
+    obsJet (Proto.fileOfText (jetText F)) F = true := by
+  obtain ⟨hk, n1, s1, f1, s2, f2, ⟨sep, hsep, htr⟩, hev⟩ := grammarJet_unpack hg
+  rw [fileOfText_jetText F hg]
   simp only [obsJet, jetLinesText, List.map_cons, beq_self_eq_true, Bool.true_and, Bool.and_eq_true, beq_iff_eq]
-  exact ⟨⟨hjh, rfl⟩, obsJBody_events F.partons F F.events hev (jet_trailer_obs F.partons hsep htr s1 s2 f1 f2)⟩
+  exact ⟨⟨jet_head_obs F hg, rfl⟩, obsJBody_events F.partons F F.events hev (jet_trailer_obs F.partons hsep htr s1 s2 f1 f2)⟩
 
 end SparkxVerif.Rd
